@@ -129,7 +129,7 @@ def main():
               "evidence_file": f"/verif/evidence/{pid}.json",
               "replay_cmd_template": "bin/check --replay {path}",
               "engine": "opwmon",
-              "level_claimed": {"category": "exploration", "text": text, "design_ref": ref},
+              "level_claimed": {"category": "exploration", "text": text + " Case counts and input classes grew with nine rounds of independently seeded changes (DESIGN.md section 8); the exact numbers of the last run and the full list of input classes, histories and clauses are in the evidence file (work, coverage.counters, rule).", "design_ref": ref},
               "level_note": note,
               "technique": tech,
             })
